@@ -290,7 +290,7 @@ def _call(case, cap):
         out3 = m(same).atoms_positions
         return out, out2, ncalls_construct, nc2, Rm, Tm, out3
 
-    for ctx, res, exc in explore(run, max_paths=500):
+    for ctx, res, exc in explore(run, max_paths=3000):
         st['paths'] += 1
         pidx = st['paths']
         if res is None:
